@@ -1044,10 +1044,251 @@ func run41(h *hist) {
 			v.createSession(c)
 			continue
 		}
+		if i > 1 && h.rng.IntN(14) == 0 {
+			v.reboot(c)
+			continue
+		}
 		op := v.next(c)
 		if op == nil {
 			continue
 		}
 		v.runTracked(op, true)
 	}
+}
+
+// csSessionOK tells whether a reply is a successful CREATE_SESSION.
+func csSessionOK(res *nfsv4.Compound4res) (*nfsv4.CreateSession4res_NFS4_OK, bool) {
+	if res.Status != nfsv4.NFS4_OK || len(res.Resarray) != 1 {
+		return nil, false
+	}
+	r, is := res.Resarray[0].(*nfsv4.NfsResop4_OP_CREATE_SESSION)
+	if !is {
+		return nil, false
+	}
+	ok, is := r.OpcreateSession.(*nfsv4.CreateSession4res_NFS4_OK)
+	return ok, is
+}
+
+// reboot plays a client restart while a request of the old incarnation is
+// still being processed: the client owner registers a new incarnation
+// (EXCHANGE_ID with a new verifier) and sends CREATE_SESSION for it while
+// an operation of the confirmed incarnation is held inside the file
+// system. The server must answer NFS4ERR_DELAY without consuming the
+// CREATE_SESSION sequence ID or changing anything; a retransmission of the
+// identical CREATE_SESSION is (re)executed: NFS4ERR_DELAY again while the
+// old request is still running, a new session once it has finished. It is
+// never answered from the replay cache of another sequence ID.
+func (v *v41) reboot(c *client41) {
+	// 1. An operation of the confirmed incarnation, held at the gate.
+	var op *op41
+	if o := pick(v.rng, c.owners); len(o.files) < 3 && v.rng.IntN(2) == 0 {
+		op = v.genOpen(o)
+	} else {
+		op = &op41{kind: k41OpenNoent, c: c, o: c.owners[0], fname: "missing", access: nfsv4.OPEN4_SHARE_ACCESS_READ, want: nfsv4.NFS4ERR_NOENT, gate: gateOpenChild}
+	}
+	s := pick(v.rng, v.trackedSlots(c))
+	seq := s.seq + 1
+	cache := v.rng.IntN(2) == 0
+	ops := v.ops(op)
+	req := v.request(s, seq, cache, op.kind, ops)
+	label := fmt.Sprintf("%s [sess %x slot %d seq %d cachethis=%v]", op, s.sess.id[:2], s.idx, seq, cache)
+	g := &v.fs.gate
+	g.arm(op.gate, op.fname)
+	defer g.disarm()
+	v.requests++
+	orig := v.srv.start(req, label, true)
+	select {
+	case <-g.reached:
+	case <-orig.done:
+		v.desync(label+" did not reach the file system", orig.res.Status)
+		return
+	case <-time.After(callGrace):
+		v.judgeStuck(orig, label, "held-request-never-reached-gate", 3, time.Second)
+		v.abort = true
+		return
+	}
+	v.logf("%s held at %s gate; the client owner restarts", label, op.gate)
+	v.shape = append(v.shape, "reboot")
+
+	// finish lets the held request complete and books it in the model.
+	finished := false
+	finish := func() bool {
+		if finished {
+			return true
+		}
+		finished = true
+		g.open()
+		if !orig.wait(callGrace) {
+			v.judgeStuck(orig, label, "released-request-never-returned", 3, time.Second)
+			v.abort = true
+			return false
+		}
+		st := orig.res.Status
+		v.logf("%s -> %s %v", label, statusName(st), resNames(orig.res))
+		if st != op.want || !seqResultOK(orig.res, s, seq) {
+			v.desync(label, st)
+			return false
+		}
+		if !v.apply(op, orig.res) {
+			return false
+		}
+		s.seq = seq
+		s.present, s.op, s.ops, s.req, s.reply, s.res, s.cache, s.probed = true, op, ops, req, orig.enc, orig.res, cache, ""
+		return true
+	}
+	defer finish()
+
+	// 2. New incarnation of the same client owner.
+	b := &client41{idx: c.idx, ownerID: c.ownerID}
+	for j := range b.verifier {
+		b.verifier[j] = byte(v.rng.Uint32())
+	}
+	p, ok := v.send(encodeArgs(compound(1, "exchange_id", &nfsv4.NfsArgop4_OP_EXCHANGE_ID{OpexchangeId: nfsv4.ExchangeId4args{
+		EiaClientowner:  nfsv4.ClientOwner4{CoVerifier: b.verifier, CoOwnerid: b.ownerID},
+		EiaStateProtect: &nfsv4.StateProtect4A_SP4_NONE{},
+	}})), "EXCHANGE_ID (restart)")
+	if !ok {
+		return
+	}
+	er, is := p.res.Resarray[0].(*nfsv4.NfsResop4_OP_EXCHANGE_ID).OpexchangeId.(*nfsv4.ExchangeId4res_NFS4_OK)
+	if !is {
+		v.desync("EXCHANGE_ID (restart)", p.res.Status)
+		return
+	}
+	b.id = er.EirResok4.EirClientid
+	csSeq := er.EirResok4.EirSequenceid
+	b.csSeq = csSeq - 1
+	v.logf("EXCHANGE_ID c%d new verifier -> clientid=%x eir_sequenceid=%d", c.idx, b.id, csSeq)
+
+	// 3. CREATE_SESSION while the old incarnation is busy.
+	csReq := v.createSessionReq(b, csSeq)
+	before := v.fingerprint()
+	if v.abort {
+		return
+	}
+	first, ok := v.send(csReq, "CREATE_SESSION (restart, old incarnation busy)")
+	if !ok {
+		return
+	}
+	after := v.fingerprint()
+	if v.abort {
+		return
+	}
+	v.logf("CREATE_SESSION c%d new incarnation seq=%d while old request is held -> %s", c.idx, csSeq, statusName(first.res.Status))
+	if first.res.Status != nfsv4.NFS4ERR_DELAY {
+		v.desync("CREATE_SESSION while the old incarnation is busy", first.res.Status)
+		return
+	}
+	v.sit("create-session-delay-41")
+	if before != after {
+		v.violate("C19 create-session-delay-side-effect v=4.1",
+			"CREATE_SESSION answered NFS4ERR_DELAY (old incarnation busy) changed observable state",
+			map[string]any{"before": before, "after": after})
+	}
+
+	// judge classifies the reply to a retransmission of the delayed
+	// CREATE_SESSION. adopted=true if it created the session.
+	judge := func(d *pending, when string) (created *nfsv4.CreateSession4res_NFS4_OK, delayed bool) {
+		v.dups++
+		if r, is := csSessionOK(d.res); is {
+			return r, false
+		}
+		if bytes.Equal(d.enc, first.enc) {
+			return nil, true
+		}
+		v.violate(fmt.Sprintf("C19 create-session-retransmission-answered-with-other-reply v=4.1 when=%s got=%s", when, statusName(d.res.Status)),
+			fmt.Sprintf("CREATE_SESSION (client ID %x, csa_sequence %d) was answered NFS4ERR_DELAY, i.e. not executed; its retransmission %s must be executed (NFS4ERR_DELAY again or a new session) but was answered %s %v, which is neither: the reply of another sequence ID was served from the replay cache", b.id, csSeq, when, statusName(d.res.Status), resNames(d.res)),
+			map[string]any{"first_reply": fmt.Sprintf("%x", first.enc), "retransmission_reply": fmt.Sprintf("%x", d.enc)})
+		return nil, false
+	}
+
+	// 4. Retransmission while still delayed.
+	var created *nfsv4.CreateSession4res_NFS4_OK
+	var createdReply []byte
+	if v.rng.IntN(3) != 0 {
+		before = v.fingerprint()
+		d, ok := v.send(csReq, "RETRANSMIT CREATE_SESSION (old incarnation still busy)")
+		if !ok || v.abort {
+			return
+		}
+		after = v.fingerprint()
+		if v.abort {
+			return
+		}
+		v.logf("  retransmit(while-delayed) CREATE_SESSION -> %s", statusName(d.res.Status))
+		v.sit("create-session-delay-retransmit-held-41")
+		var delayed bool
+		created, delayed = judge(d, "while-old-request-is-held")
+		if created != nil {
+			createdReply = d.enc
+			v.violate("C19 create-session-executed-while-old-incarnation-busy v=4.1", "the retransmitted CREATE_SESSION replaced the confirmed incarnation although one of its requests is still being processed", nil)
+			v.abort = true
+			return
+		}
+		if delayed && before != after {
+			v.violate("C19 create-session-delay-side-effect v=4.1",
+				"retransmitted CREATE_SESSION answered NFS4ERR_DELAY changed observable state",
+				map[string]any{"before": before, "after": after})
+		}
+	}
+
+	// 5. The old request finishes.
+	if !finish() {
+		return
+	}
+	if v.rng.IntN(2) == 0 {
+		// The sequence ID must not have been consumed by the delayed
+		// request: csa_sequence+1 is still misordered.
+		v.csRejected(b, csSeq+1, "+2")
+		if v.abort {
+			return
+		}
+	}
+
+	// 6. Retransmission after the old request finished.
+	for try := 0; try < 3 && created == nil; try++ {
+		d, ok := v.send(csReq, "RETRANSMIT CREATE_SESSION (old incarnation idle)")
+		if !ok {
+			return
+		}
+		v.logf("  retransmit(after-old-request-finished) CREATE_SESSION -> %s", statusName(d.res.Status))
+		v.sit("create-session-delay-retransmit-after-41")
+		var delayed bool
+		created, delayed = judge(d, "after-old-request-finished")
+		if created != nil {
+			createdReply = d.enc
+		}
+		if !delayed && created == nil {
+			break
+		}
+	}
+	if created == nil {
+		v.violate("C19 create-session-never-executes-after-delay v=4.1",
+			fmt.Sprintf("after the old incarnation became idle, retransmissions of the delayed CREATE_SESSION (csa_sequence %d) still do not create a session", csSeq), nil)
+		// The old incarnation is still the confirmed one; carry on with it.
+		return
+	}
+
+	// 7. The new incarnation replaces the old one: all of its sessions,
+	// opens and locks are gone.
+	for _, slots := range v.held {
+		for sl, lf := range slots {
+			if lf.c == c {
+				delete(slots, sl)
+			}
+		}
+	}
+	c.verifier, c.id, c.csSeq, c.csReq, c.csReply = b.verifier, b.id, csSeq, csReq, createdReply
+	c.retired = nil
+	for _, o := range c.owners {
+		o.files = map[string]*of41{}
+	}
+	sess := &sess41{id: created.CsrResok4.CsrSessionid}
+	for i := uint32(0); i < created.CsrResok4.CsrForeChanAttrs.CaMaxrequests; i++ {
+		sess.slots = append(sess.slots, &slot41{sess: sess, idx: i})
+	}
+	c.sessions = []*sess41{sess}
+	c.probe = sess.slots[len(sess.slots)-1]
+	v.logf("c%d continues as clientid=%x", c.idx, c.id)
+	v.csReplay(c, "after-delay")
 }
